@@ -507,15 +507,15 @@ func c18Eval(res *core.Result, b *c18Base, m c18Mut, env *core.Env) {
 		return
 	}
 	if werr != nil {
-		fail("resources-out-of-proportion", "time-memory-or-reads", "%v (image %s, %s corrupted at %d)", werr, b.name, m.Region, m.Off)
+		fail("resources-out-of-proportion", c18ResReg(m), "%v (image %s, %s corrupted at %d)", werr, b.name, m.Region, m.Off)
 		return
 	}
 	if st.Exceeded.Load() {
-		fail("resources-out-of-proportion", "time-memory-or-reads", "more than 64x the image size was read while walking (image %s, %s corrupted at %d%s)", b.name, m.Region, m.Off, noteOf(m))
+		fail("resources-out-of-proportion", c18ResReg(m), "more than 64x the image size was read while walking (image %s, %s corrupted at %d%s)", b.name, m.Region, m.Off, noteOf(m))
 		return
 	}
 	if d := ms1.TotalAlloc - ms0.TotalAlloc; d > uint64(8*b.size+(4<<20))+uint64(st.ReadBytes.Load()) {
-		fail("resources-out-of-proportion", "time-memory-or-reads", "%d bytes allocated while walking a %d-byte image (%s corrupted at %d, width %d, value %#x)", d, b.size, m.Region, m.Off, m.Width, m.Value)
+		fail("resources-out-of-proportion", c18ResReg(m), "%d bytes allocated while walking a %d-byte image (%s corrupted at %d, width %d, value %#x)", d, b.size, m.Region, m.Off, m.Width, m.Value)
 		return
 	}
 	res.Count("outcome."+outcome, 1)
@@ -561,7 +561,7 @@ func init() {
 				// first depends on the machine, so they share one key per damaged region
 				class = "resources-out-of-proportion"
 			}
-			if class == "resources-out-of-proportion" {
+			if class == "resources-out-of-proportion" && os.Getenv("C18_DIAG") == "" {
 				reg = "time-memory-or-reads"
 			}
 			return fmt.Sprintf("C18/%s/%s/%s", typ, class, reg)
@@ -668,4 +668,12 @@ func repoFrames(stack string, n int) string {
 		out = append(out, fn+" ("+loc+")")
 	}
 	return strings.Join(out, " <- ")
+}
+
+// c18ResReg: the cause part of a resource finding's key (diagnostic runs with C18_DIAG=1 split it by region).
+func c18ResReg(m c18Mut) string {
+	if os.Getenv("C18_DIAG") != "" {
+		return m.Region
+	}
+	return "time-memory-or-reads"
 }
